@@ -83,6 +83,9 @@ func (p *Prog) ConeFrom(roots []*ssa.Function) *Cone {
 		if !InRepo(f) || f.Blocks == nil || c.Funcs[f] {
 			return
 		}
+		if !p.InDaemon(f) {
+			return // test-support package, not linked into the daemon
+		}
 		c.Funcs[f] = true
 		c.Via[f] = via
 		c.Order = append(c.Order, f)
